@@ -16,13 +16,13 @@ def away_from_int(x, eps=1e-6):
     return abs(x - round(x)) > eps
 
 
-def gauss_hemisphere(n_theta, n_phi, scale=1.0):
+def gauss_hemisphere(n_theta, n_phi, scale=1.0, phase=0.0):
     """Gauss-Legendre in cos(theta) on [0,1] x uniform azimuth (n_phi even):
     sum(w*cos) == sum(w)/2 and closed under azimuth+pi."""
     x, w = np.polynomial.legendre.leggauss(n_theta)
     cos_t = (x + 1) / 2
     wt = w / 2
-    az = (np.arange(n_phi) + 0.5) * 2 * np.pi / n_phi
+    az = (np.arange(n_phi) + 0.5) * 2 * np.pi / n_phi + phase
     pts = []
     ws = []
     for c, wc in zip(cos_t, wt):
@@ -92,7 +92,10 @@ def draw_config(rng, nb=None, multi_dir=False, uniform_alpha=None, att_zero=Fals
     else:
         nt, nphi = 0, 0
     off = tuple(np.round(rng.uniform(-3, 3, 3), 2)) if offset else (0.0, 0.0, 0.0)
-    cfg = dict(dims=dims, patch_size=ps, n_patches=npat, nb=nb, freqs=freqs, alpha=alpha,
+    # a generic azimuth phase keeps centre-to-centre directions of axis-aligned rooms away from
+    # the bisecting planes of the sampling (exact ties of the nearest-sample lookup)
+    phase = float(np.round(rng.uniform(0.05, 0.7), 4)) if multi_dir else 0.0
+    cfg = dict(phase=phase, dims=dims, patch_size=ps, n_patches=npat, nb=nb, freqs=freqs, alpha=alpha,
                att=att, nt=nt, nphi=nphi, random_tables=bool(random_tables), offset=off,
                table_seed=int(rng.integers(0, 2**31)))
     return cfg
@@ -102,7 +105,7 @@ def directions(cfg):
     if cfg["nt"] == 0:
         d = pf.Coordinates(0, 0, 1, weights=1)
         return d, d
-    d = gauss_hemisphere(cfg["nt"], cfg["nphi"])
+    d = gauss_hemisphere(cfg["nt"], cfg["nphi"], phase=cfg.get("phase", 0.0))
     return d, d.copy()
 
 
